@@ -200,3 +200,25 @@ def payload_tree(tree, *steps):
         from .interp import mkproj
         out[()] = ("term", mkproj(base[1], path)) if base and base[0] == "term" else TOP
     return out
+
+
+def find_chunk_writer(prog):
+    """the private helper that emits one chunk, found by its role rather than by its name: a function reachable from
+    BodyWriter::write, other than it, that (itself or in its closures) formats a value with write_fmt and copies bytes
+    with write_all, and that takes a `&mut usize` counter"""
+    from .panics import reachable_from
+    from .mir import callee_path, short
+    bw = prog.find("BodyWriter::write")
+    if bw is None:
+        return None
+    cands = []
+    for b in reachable_from(prog, [bw]):
+        if b.is_derived or b.kind == "Closure" or b.id == bw.id:
+            continue
+        bodies = [b] + [c for c in prog.bodies.values() if c.kind == "Closure" and c.closure_root == b.id]
+        calls = [short(callee_path(t) or "") for x in bodies for _, t in x.calls()]
+        if any(c.endswith("write_fmt") for c in calls) and any(c.endswith("write_all") for c in calls):
+            ins = [short(x) for x in b.raw.get("sig_inputs", [])]
+            if any(x.replace(" ", "") == "&mutusize" for x in ins):
+                cands.append(b)
+    return cands[0] if len(cands) == 1 else None
